@@ -60,31 +60,79 @@ Definition J (cfg : config) (s : sstate) (w : Z) : Prop :=
 
 (* s' differs from s only in ways that keep J: same counter and store, the outgoing pool only grew
    by clean handlers, a stopped router stays stopped *)
+(* the event pools only grow: what is registered for an event stays registered, in place *)
+Definition ev_grows (s s' : sstate) : Prop :=
+  forall e, exists extra, ev_get (s_ev s') e = ev_get (s_ev s) e ++ extra.
+
+Lemma ev_grows_same s s' : s_ev s' = s_ev s -> ev_grows s s'.
+Proof. intros E e. exists []. rewrite E, app_nil_r. reflexivity. Qed.
+
+Lemma ev_grows_trans a b c : ev_grows a b -> ev_grows b c -> ev_grows a c.
+Proof.
+  intros H1 H2 e. destruct (H1 e) as (x1 & E1). destruct (H2 e) as (x2 & E2).
+  exists (x1 ++ x2). rewrite E2, E1, app_assoc. reflexivity.
+Qed.
+
 Definition keeps (s s' : sstate) : Prop :=
   s_cnt_out s' = s_cnt_out s /\ s_store s' = s_store s
   /\ (forall k, exists extra, pool_get (s_out s') k = pool_get (s_out s) k ++ extra /\ Forall out_h_clean extra)
-  /\ (s_router_stopped s = true -> s_router_stopped s' = true).
+  /\ (s_router_stopped s = true -> s_router_stopped s' = true)
+  /\ ev_grows s s'.
 
 Lemma keeps_refl s : keeps s s.
-Proof. repeat split; auto. intro k. exists []. rewrite app_nil_r. split; [reflexivity|constructor]. Qed.
+Proof.
+  split; [reflexivity|]. split; [reflexivity|]. split; [|split; [auto|apply ev_grows_same; reflexivity]].
+  intro k. exists []. rewrite app_nil_r. split; [reflexivity|constructor].
+Qed.
 
 Lemma keeps_trans a b c : keeps a b -> keeps b c -> keeps a c.
 Proof.
-  intros (C1 & S1 & P1 & R1) (C2 & S2 & P2 & R2). repeat split; try congruence; auto.
+  intros (C1 & S1 & P1 & R1 & G1) (C2 & S2 & P2 & R2 & G2).
+  split; [congruence|]. split; [congruence|]. split; [|split; [auto|eapply ev_grows_trans; eassumption]].
   intro k. destruct (P1 k) as (e1 & E1 & F1). destruct (P2 k) as (e2 & E2 & F2).
   exists (e1 ++ e2). rewrite E2, E1, app_assoc. split; [reflexivity|apply Forall_app; split; assumption].
 Qed.
 
+Lemma keeps_grow s s' :
+  s_cnt_out s' = s_cnt_out s -> s_store s' = s_store s -> s_out s' = s_out s ->
+  (s_router_stopped s = true -> s_router_stopped s' = true) -> ev_grows s s' -> keeps s s'.
+Proof.
+  intros C S O R G. split; [exact C|]. split; [exact S|]. split; [|split; [exact R|exact G]].
+  intro k. exists []. rewrite O, app_nil_r. split; [reflexivity|constructor].
+Qed.
+
 Lemma keeps_same s s' :
   s_cnt_out s' = s_cnt_out s -> s_store s' = s_store s -> s_out s' = s_out s ->
-  (s_router_stopped s = true -> s_router_stopped s' = true) -> keeps s s'.
+  (s_router_stopped s = true -> s_router_stopped s' = true) -> s_ev s' = s_ev s -> keeps s s'.
+Proof. intros C S O R E. apply keeps_grow; auto. apply ev_grows_same. exact E. Qed.
+
+(* registering one more handler for an event *)
+Lemma ev_get_add p e h e' :
+  ev_get (ev_add p e h) e' = if event_eqb e' e then ev_get p e' ++ [h] else ev_get p e'.
 Proof.
-  intros C S O R. repeat split; auto. intro k. exists []. rewrite O, app_nil_r. split; [reflexivity|constructor].
+  induction p as [|[e0 hs] p IH]; cbn [ev_add ev_get].
+  - destruct (event_eqb e' e); reflexivity.
+  - destruct (event_eqb e e0) eqn:E.
+    + assert (e = e0) by (destruct e, e0; try discriminate; reflexivity). subst e0.
+      cbn [ev_get]. destruct (event_eqb e' e); reflexivity.
+    + cbn [ev_get]. destruct (event_eqb e' e0) eqn:E2; [|exact IH].
+      assert (e' = e0) by (destruct e', e0; try discriminate; reflexivity). subst e0.
+      destruct (event_eqb e' e) eqn:E3; [|reflexivity].
+      assert (e' = e) by (destruct e', e; try discriminate; reflexivity). subst.
+      rewrite E in E3. discriminate.
+Qed.
+
+Lemma keeps_ev_add s e h : keeps s (upd_pools s (s_in s) (s_out s) (ev_add (s_ev s) e h)).
+Proof.
+  apply keeps_grow; try reflexivity; [auto|].
+  intro e'. cbn [s_ev upd_pools]. rewrite ev_get_add. destruct (event_eqb e' e).
+  - exists [h]. reflexivity.
+  - exists []. rewrite app_nil_r. reflexivity.
 Qed.
 
 Lemma J_keeps cfg s s' w : J cfg s w -> keeps s s' -> J cfg s' w.
 Proof.
-  intros (Hf & (Hc & (rest & Hs)) & Hst & Hw & Hr) (C & S & P & R).
+  intros (Hf & (Hc & (rest & Hs)) & Hst & Hw & Hr) (C & S & P & R & _).
   split; [exact Hf|]. split.
   - split.
     + intro k. destruct (P k) as (e & E & F). rewrite E. apply Forall_app. split; [apply Hc|exact F].
@@ -203,11 +251,19 @@ Proof.
   - exists []. rewrite app_nil_r. split; [reflexivity|constructor].
 Qed.
 
+Lemma keeps_reg_out s k h :
+  out_h_clean h -> keeps s (upd_pools s (s_in s) (pool_add (s_out s) k h) (s_ev s)).
+Proof.
+  intro Hh. split; [reflexivity|]. split; [reflexivity|]. split; [|split; [auto|apply ev_grows_same; reflexivity]].
+  intro k'. cbn [s_out upd_pools]. apply pool_add_keeps_out. exact Hh.
+Qed.
+
 Lemma start_timers_keeps s : keeps s (start_timers s).
 Proof.
-  unfold start_timers. repeat split; try reflexivity.
+  unfold start_timers. split; [reflexivity|]. split; [reflexivity|]. split; [|split].
   - intro k. cbn [s_out upd_pools upd_timers]. apply pool_add_keeps_out. exact I.
   - cbn. auto.
+  - apply ev_grows_same. reflexivity.
 Qed.
 
 Lemma run_ev_handlers_keeps hs : forall s s' o,
@@ -464,14 +520,12 @@ Proof.
   - exact (session_send_J _ _ _ _ _ _ HJ (build_app_header a) H).
   - exact (do_logout_J _ _ _ _ _ HJ H).
   - match type of H with do_logout cfg ?sx = _ =>
-      assert (HJ1 : J cfg sx w) by (eapply J_keeps; [exact HJ|apply keeps_same; try reflexivity; auto]) end.
+      assert (HJ1 : J cfg sx w) by (eapply J_keeps; [exact HJ|apply keeps_ev_add]) end.
     exact (do_logout_J _ _ _ _ _ HJ1 H).
   - inversion H; subst. apply Jstep_nil; [exact HJ|]. apply keeps_same; try reflexivity; auto.
   - inversion H; subst. apply Jstep_nil; [exact HJ|]. apply keeps_same; try reflexivity; auto.
-  - inversion H; subst. apply Jstep_nil; [exact HJ|].
-    repeat split; try reflexivity; [|auto]. intro k. cbn [s_out upd_pools].
-    apply pool_add_keeps_out. exact Hop.
-  - inversion H; subst. apply Jstep_nil; [exact HJ|]. apply keeps_same; try reflexivity; auto.
+  - inversion H; subst. apply Jstep_nil; [exact HJ|]. apply keeps_reg_out. exact Hop.
+  - inversion H; subst. apply Jstep_nil; [exact HJ|]. apply keeps_ev_add.
   - destruct (negb (timer_live s g) || s_intimer_done s); [inversion H; subst; apply Jstep_nil; [exact HJ|apply keeps_refl]|].
     destruct (negb (logged_or_probing s)); [inversion H; subst; apply Jstep_nil; [exact HJ|apply keeps_refl]|].
     destruct (lstate_eqb (s_state s) WaitingTestReqAnswer).
